@@ -42,11 +42,12 @@ structure PCfg where
   d : Dec
   kind : ParserKind
   doc : Str
+  /-- what the lexer generator does once its tokens are used up (it never changes during a parse) -/
+  tail : Tail
 
 /-- the lexer generator as the parser sees it -/
 structure Gen where
   pending : List Token
-  tail : Tail
   pushed : Option Token
   last : Option Token
   dead : Bool
@@ -77,7 +78,7 @@ def liftD {α} (x : Except DErr α) : PM α :=
   | .error e => throw (ofDErr e)
 
 /-- `next(tokens)` -/
-def next : PM Token := do
+def next (c : PCfg) : PM Token := do
   let s ← get
   let g := s.gen
   if g.dead then throw .stop
@@ -92,7 +93,7 @@ def next : PM Token := do
       pure t
     | [] =>
       set { s with gen := { g with dead := true } }
-      match g.tail with
+      match c.tail with
       | .eof => throw .stop
       | .lexerr p => throw (.lexer p)
 
@@ -137,7 +138,7 @@ def emptyValue (c : PCfg) (pos : Int) : PM Val := do
 def wscUntil (c : PCfg) (tok : Option Str) : Nat → PM Bool
   | 0 => throw .fuel
   | fuel + 1 => do
-    let r ← tryCatch (do let t ← next; pure (some t)) (fun e => match e with
+    let r ← tryCatch (do let t ← next c; pure (some t)) (fun e => match e with
       | .stop => pure none
       | e => throw e)
     match r with
@@ -151,7 +152,7 @@ def wscUntil (c : PCfg) (tok : Option Str) : Nat → PM Bool
 def stmtDelim (c : PCfg) : Nat → PM Bool
   | 0 => throw .fuel
   | fuel + 1 => do
-    let r ← tryCatch (do let t ← next; pure (some t)) (fun e => match e with
+    let r ← tryCatch (do let t ← next c; pure (some t)) (fun e => match e with
       | .stop => pure none
       | e => throw e)
     match r with
@@ -166,7 +167,7 @@ def aroundEquals (c : PCfg) (fuel : Nat) : PM Unit := do
   let ok ← wscUntil c (some [61]) fuel
   if !ok then
     tryCatch (do
-      let t ← next
+      let t ← next c
       send t
       throw .value) (fun e => match e with
       | .stop => throw (.parse none)
@@ -215,7 +216,7 @@ def tokenTextOf : Val → Str
 def valueHook (c : PCfg) : PM Val := do
   match c.kind with
   | .omni =>
-    let t ← next
+    let t ← next c
     let f := casefold t.text
     if c.g.reservedKeywords.any (fun w => casefold w == f) || c.g.delimiters.any (fun w => casefold w == f)
     then do
@@ -227,7 +228,7 @@ def valueHook (c : PCfg) : PM Val := do
 /-- `parse_units` -/
 def units (c : PCfg) (v : Val) : PM Val := do
   if c.kind == .odl && !valIsNumber v then throw .value
-  let t ← next
+  let t ← next c
   if !(startsWith t.text [c.g.unitsDelims.1]) then
     send t
     throw .value
@@ -245,7 +246,7 @@ def value (c : PCfg) : Nat → PM Val
   | 0 => throw .fuel
   | fuel + 1 => do
     -- t = next(tokens); value = decode_simple_value(t)   inside `try … except ValueError`
-    let first : Except PErr Token ← tryCatch (do let t ← next; pure (Except.ok t))
+    let first : Except PErr Token ← tryCatch (do let t ← next c; pure (Except.ok t))
       (fun e => if e.isValueError then pure (Except.error e) else throw e)
     modify (fun s => { s with simple := none })
     let v : Val ← match first with
@@ -291,7 +292,7 @@ def value (c : PCfg) : Nat → PM Val
 def setSeq (c : PCfg) (delims : Nat × Nat) : Nat → PM (List Val)
   | 0 => throw .fuel
   | fuel + 1 => do
-    let t ← next
+    let t ← next c
     if t.text != [delims.1] then
       send t
       throw .value
@@ -310,7 +311,7 @@ def setSeq (c : PCfg) (delims : Nat × Nat) : Nat → PM (List Val)
 def setSeqLoop (c : PCfg) (delims : Nat × Nat) (acc : List Val) : Nat → PM (Option (List Val))
   | 0 => throw .fuel
   | fuel + 1 => do
-    let r ← tryCatch (do let t ← next; pure (some t)) (fun e => match e with
+    let r ← tryCatch (do let t ← next c; pure (some t)) (fun e => match e with
       | .stop => pure none
       | e => throw e)
     match r with
@@ -343,7 +344,7 @@ end
 
 /-- `parse_assignment_statement` of `PVLParser` -/
 def assignmentBase (c : PCfg) (fuel : Nat) : PM (Str × Val) := do
-  let t ← tryCatch next (fun e => match e with
+  let t ← tryCatch (next c) (fun e => match e with
     | .stop => throw .value
     | e => throw e)
   let isName := Tok.isParameterName c.d t.text
@@ -372,7 +373,7 @@ def assignment (c : PCfg) (fuel : Nat) : PM (Str × Val) :=
 
 /-- `parse_end_statement`; `()` = the function's `None`. -/
 def endStatement (c : PCfg) : PM Unit := do
-  let r ← tryCatch (do let t ← next; pure (some t)) (fun e => match e with
+  let r ← tryCatch (do let t ← next c; pure (some t)) (fun e => match e with
     | .stop => pure none
     | e => throw e)
   match r with
@@ -385,14 +386,14 @@ def endStatement (c : PCfg) : PM Unit := do
 
 /-- `parse_begin_aggregation_statement` -/
 def beginAgg (c : PCfg) (fuel : Nat) : PM (Str × Str) := do
-  let b ← tryCatch next (fun e => match e with
+  let b ← tryCatch (next c) (fun e => match e with
     | .stop => throw .value
     | e => throw e)
   if !Tok.isBeginAggregation c.g b.text then
     send b
     throw .value
   softCatch (aroundEquals c fuel) throwIn
-  let name ← tryCatch next (fun e => match e with
+  let name ← tryCatch (next c) (fun e => match e with
     | .stop => throw (.parse none)
     | e => throw e)
   let isName := Tok.isParameterName c.d name.text
@@ -402,7 +403,7 @@ def beginAgg (c : PCfg) (fuel : Nat) : PM (Str × Str) := do
 
 /-- `parse_end_aggregation` -/
 def endAgg (c : PCfg) (begin name : Str) (fuel : Nat) : PM Unit := do
-  let e ← next
+  let e ← next c
   let expected : Str := match c.g.aggKeywords.find? (fun p => foldEq p.1 begin) with
     | some p => p.2
     | none => []
@@ -417,7 +418,7 @@ def endAgg (c : PCfg) (begin name : Str) (fuel : Nat) : PM Unit := do
   if !eqOk then
     let _ ← stmtDelim c fuel
     return ()
-  let t ← next
+  let t ← next c
   if t.text != name then
     send t
     throwIn
@@ -435,7 +436,7 @@ def moduleHook (c : PCfg) (m : Items) (fuel : Nat) : PM (Items × Except PErr Bo
   match c.kind with
   | .omni =>
     -- outer `try … except StopIteration: return module, False`
-    let t? ← tryCatch (do let t ← next; pure (Except.ok t)) (fun e => pure (Except.error e))
+    let t? ← tryCatch (do let t ← next c; pure (Except.ok t)) (fun e => pure (Except.error e))
     match t? with
     | .error .stop => pure (m, .ok false)
     | .error e => pure (m, .error e)
@@ -487,7 +488,7 @@ def moduleHook (c : PCfg) (m : Items) (fuel : Nat) : PM (Items × Except PErr Bo
 where
   /-- `t = next(tokens); tokens.send(t); return module, True` under `except StopIteration` -/
   peek (m : Items) : PM (Items × Except PErr Bool) := do
-    let r ← tryCatch (do let t ← next; send t; pure (Except.ok ())) (fun e => pure (Except.error e))
+    let r ← tryCatch (do let t ← next c; send t; pure (Except.ok ())) (fun e => pure (Except.error e))
     match r with
     | .ok _ => pure (m, .ok true)
     | .error .stop => pure (m, .ok false)
@@ -561,7 +562,7 @@ def moduleLoop (c : PCfg) (m : Items) : Nat → PM Items
     | .error _ =>
       if p1 || p2 then moduleLoop c m3 fuel
       else do
-        let _ ← next
+        let _ ← next c
         throwIn
 
 end P
@@ -570,6 +571,9 @@ structure ParseResult where
   outcome : Except PErr Items
   errors : List Int     -- `parser.errors` after the call (unsorted, as stored)
   sites : List String
+  /-- the last token the lexer generator produced, and whether the generator finished -/
+  last : Option Token
+  exhausted : Bool
   deriving Repr
 
 /-- `re.sub(r"-[\n\r\f]\s*", "", s)` (parser.py:855) -/
@@ -597,11 +601,11 @@ def fuelFor (n : Nat) : Nat := 4 * n + 16
 def parseWith (g : Grammar) (d : Dec) (kind : ParserKind) (prior : List Int) (s : Str) : ParseResult :=
   let doc := if kind == .omni then omniPrepass s else s
   let (toks, tail) := lexAll g d doc
-  let c : PCfg := ⟨g, d, kind, doc⟩
+  let c : PCfg := ⟨g, d, kind, doc, tail⟩
   -- `self.errors = []` at the top of `parse()`: whatever an earlier call left is discarded
   let _ := prior
-  let st : PSt := ⟨⟨toks, tail, none, none, false⟩, [], [], none, false⟩
+  let st : PSt := ⟨⟨toks, none, none, false⟩, [], [], none, false⟩
   let (r, st') := (P.moduleLoop c [] (fuelFor (toks.length + 2))).run.run st
-  ⟨r, st'.errors, st'.sites⟩
+  ⟨r, st'.errors, st'.sites, st'.gen.last, st'.gen.dead⟩
 
 end Pvl
